@@ -13,16 +13,23 @@ def gen_cases(ck, limit, step):
     rng = ck.rng
     cases = []
 
-    def add(target, frames, events, n, cancel, tag):
+    def add(target, frames, events, n, cancel, tag, rejoin=None):
+        # entry points: the Connection's own receive_*, the same through the read half, and with the
+        # connection split into halves and joined again between any two receive futures
+        if rejoin is None:
+            rejoin = rng.random() < 0.25
+        if target in ("call_strict", "reply_typed") and rng.random() < 0.3:
+            target = "rh_" + target
         cases.append({"id": len(cases), "target": target, "events": events, "n": n,
                       "frames": [f.hex() for f in frames], "inhyp": True, "cancel": cancel,
-                      "kinds": [], "tag": tag})
+                      "kinds": [], "tag": tag, "rejoin": rejoin})
     corpus = os.path.join(VERIF, "corpus", "c07.jsonl")
     if os.path.exists(corpus):
         for line in open(corpus):
             if line.strip():
                 c = json.loads(line)
-                add(c["target"], [bytes.fromhex(f) for f in c["frames"]], c["events"], c["n"], c["cancel"], "corpus")
+                add(c["target"], [bytes.fromhex(f) for f in c["frames"]], c["events"], c["n"], c["cancel"], "corpus",
+                    rejoin=c.get("rejoin", False))
     quick = ck.tier == "quick"
     # (a) exhaustive: every subset of cancellation points for streams with <= 6 suspension points
     n_ex = 14 if quick else 80
@@ -88,7 +95,7 @@ def main():
         ck.prove(["gen/Consts.v", "Framing/ReadConnExec.v"], "props/C07.v")
     if ck.replay:
         rp = json.load(open(ck.replay))
-        cases = [rp["case"]] if "case" in rp else []
+        cases = [rp["case"]] if "case" in rp and rp.get("leg") != "production" else []
         for i, c in enumerate(cases):
             c["id"] = i
     else:
@@ -127,6 +134,102 @@ def main():
                          {"case": c, "impl": r, "model_and_spec": model, "codes": codes,
                           "correspondence": "ReadConn.drive_c vs Connection::receive_* with dropped futures"},
                          tag="m%d" % c["id"], no_input=True)
+    # ---- production buffer limit (conn harness built WITHOUT the hook cfg, scripted transport): frames
+    # beyond the hook's limit, cancellation while thousands of bytes are buffered. The theorems are proved
+    # for every limit that is a multiple of the step, so the implementation's results are compared with
+    # their conclusion directly (spec level: one result per frame, in order, equal to the frame decoded
+    # in isolation, whatever the pattern of abandoned receives).
+    prod_runs, prod_cancels = 0, 0
+    if not ck.replay or (ck.replay and json.load(open(ck.replay)).get("leg") == "production"):
+        root = harness_root()
+        rc_, log_ = sh("cargo build --offline --bin conn --target-dir %s" % os.path.join(root, "target-nohook"),
+                       timeout=1500, cwd=root, env={"RUSTFLAGS": ""})
+        if rc_ != 0:
+            ck.violation("conn harness does not build against /repo without the hook cfg", {"log": log_[-3000:]},
+                         tag="pbuild", no_input=True)
+        else:
+            rng = ck.rng
+            pcases = []
+
+            def padd(target, frames, ev, cancel, tag):
+                pcases.append({"id": len(pcases), "target": target, "events": ev, "n": len(frames) + 1,
+                               "cancel": cancel, "tag": tag, "rejoin": rng.random() < 0.2,
+                               "frames": [f.hex() for f in frames]})
+            if ck.replay:
+                pc = json.load(open(ck.replay))["case"]
+                pc["id"] = 0
+                pcases.append(pc)
+            BIG = [3 * limit // 4, limit - 1, limit, limit + 1, limit + step, 2 * limit, 2 * limit + 7, 5 * limit]
+            for i in range(0 if ck.replay else (24 if ck.tier == "quick" else 200)):
+                target = ["call_strict", "reply_typed", "call_value", "reply_value"][i % 4]
+                # (i) a short frame and the first part (>= the hook limit) of a long one arrive together, the
+                # receive is abandoned, the rest arrives
+                small, _ = fg.frame(rng, target, kind="valid")
+                big, _ = fg.frame(rng, target, kind="valid", size=rng.choice(BIG[2:]))
+                tail, _ = fg.frame(rng, target, kind="valid")
+                frames = [small, big, tail] if i % 2 else [big, small, big]
+                stream = fg.wire(frames)
+                first = len(frames[0]) + 1 + rng.choice([limit, limit + 1, limit + step + 3])
+                first = min(first, len(stream) - 2)
+                cut2 = rng.randrange(first + 1, len(stream))
+                ev = [["d", stream[:first].hex()], ["p"], ["d", stream[first:cut2].hex()], ["p"],
+                      ["d", stream[cut2:].hex()], ["e"]]
+                for cancel in ([1], [2], [1, 2], []):
+                    padd(target, frames, ev, cancel, "short_then_partial_long")
+                # (ii) random long frames, random large chunks, random suspension and abandonment
+                k = rng.randrange(2, 5)
+                frames = []
+                for _ in range(k):
+                    f, _ = fg.frame(rng, target, kind="valid",
+                                    size=rng.choice(BIG) if rng.random() < 0.6 else None)
+                    frames.append(f)
+                stream = fg.wire(frames)
+                chunks = fg.chunks_from_cuts(stream, fg.random_cuts(rng, len(stream), rng.randrange(3, 14)))
+                ev = fg.events_of(rng, chunks, pend_prob=0.5)
+                npend = sum(1 for e in ev if e[0] == "p")
+                padd(target, frames, ev, list(range(1, npend + 1)), "random_long_all_abandoned")
+                padd(target, frames, ev, sorted(rng.sample(range(1, npend + 1), rng.randrange(0, npend + 1))) if npend else [],
+                     "random_long_random_subset")
+            exe = os.path.join(root, "target-nohook", "debug", "conn")
+            n_sh = 12
+            parts = [pcases[j::n_sh] for j in range(n_sh) if pcases[j::n_sh]]
+            from concurrent.futures import ThreadPoolExecutor
+
+            def prun(part):
+                inp = "\n".join(json.dumps({k: v for k, v in c.items() if k != "frames"}) for c in part) + "\n"
+                rc2, out2 = sh(exe, timeout=900, input=inp)
+                got = {}
+                for l in out2.splitlines():
+                    if l.startswith("{"):
+                        try:
+                            o = json.loads(l)
+                            got[o.get("id")] = o
+                        except ValueError:
+                            pass
+                return got
+            pres = {}
+            with ThreadPoolExecutor(max_workers=n_sh) as ex:
+                for got in ex.map(prun, parts):
+                    pres.update(got)
+            for c in pcases:
+                r = pres.get(c["id"])
+                prod_runs += 1
+                slim = c
+                if r is None or r.get("panic"):
+                    ck.violation("production limit: receive crashed/panicked under cancellation (frames of %s bytes)"
+                                 % [len(f) // 2 for f in c["frames"]],
+                                 {"leg": "production", "case": slim, "impl": r}, tag="pp%d" % c["id"])
+                    continue
+                prod_cancels += r.get("cancels", 0)
+                want = [r["segs"].get(f) for f in c["frames"]]
+                got = [o["res"] for o in r.get("ops", [])]
+                if r.get("stuck") or got[:len(want)] != want or len(got) != len(want) + 1 or got[-1].startswith("ok") \
+                        or any(w is None or w.startswith("err") for w in want):
+                    ck.violation("production limit: frames of %s bytes, receive futures dropped after pending polls %s: "
+                                 "results %s, expected one per frame in order %s then end of stream" % (
+                                     [len(f) // 2 for f in c["frames"]], c["cancel"], got, want),
+                                 {"leg": "production", "case": slim, "impl": {k: v for k, v in r.items() if k != "segs"}},
+                                 tag="prod%d" % c["id"])
     # ---- real transports (tokio and smol Unix sockets, binary built without the hook cfg): a peer
     # writes each frame in several segments with pauses while the receiver abandons its receive by a
     # short time-out again and again; every message must still arrive intact, once, in order. This
@@ -172,6 +275,7 @@ def main():
     ck.cov.update({"evaluations": len(cases), "distinct_nontrivial": len(nontriv),
                    "traces_validated_against_impl": len(items), "case_classes": hist,
                    "futures_dropped_total": cancels_done,
+                   "production_limit_runs": prod_runs, "production_limit_receives_abandoned": prod_cancels,
                    "real_socket_runs": len(sock_cases), "real_socket_receives_abandoned": sock_cancels,
                    "exhaustive": False,
                    "exhaustive_part": "every subset of suspension points for the streams in class exhaustive_subsets"})
